@@ -24,16 +24,20 @@ PID = "C01"
 
 def model_cfg(ver, tier, wd, scope="module"):
     mu = 3 if tier == "quick" else 4
+    mp = 1 if tier == "quick" else 2
+    classes, by = '"EXT", "JABS", "JREL", "NAME", "LOCAL", "FREE", "CONST", "NOARG", "RAW"', "{0, 1, 2, 4}"
+    if scope in df.SMALL_SCOPES:
+        classes, by, mu, mp = df.SMALL_SCOPES[scope] + (4, 1)
     fn = wd / f"MC_Decode_rt_{ver}_{scope}.cfg"
     fn.write_text(f"""SPECIFICATION Spec
 CONSTANTS
   Ver = "{ver}"
   MaxUnits = {mu}
-  MaxPrefix = {1 if tier == "quick" else 2}
-  Classes = {{"EXT", "JABS", "JREL", "NAME", "LOCAL", "FREE", "CONST", "NOARG", "RAW"}}
-  ByteVals = {{0, 1, 2, 4}}
+  MaxPrefix = {mp}
+  Classes = {{{classes}}}
+  ByteVals = {by}
   Scope = "{scope}"
-  Emit = {"TRUE" if scope == "module" else "FALSE"}
+  Emit = {"TRUE" if scope in ("module",) + tuple(df.SMALL_SCOPES) else "FALSE"}
 INVARIANT DecodeModel
 INVARIANT RoundTripModel
 """)
@@ -67,26 +71,28 @@ def run(tier: str, rep: Report):
         "synthetic streams are restricted to the compilers' domain: redundant EXTENDED_ARG prefixes only before jumps "
         "(MC_Decode shows `EXTENDED_ARG 0; LOAD_FAST 0` cannot round-trip: the data model keeps jump widths only)",
     ]
-    gen = {}
 
-    def mc(v):
-        return v, run_tlc("MC_Decode", model_cfg(v, tier, wd), workers=max(2, NCPU // 4), timeout=3000,
-                          extra=["-continue"], heap="6g")
+    def mc(job):
+        v, sc = job
+        return v, sc, run_tlc("MC_Decode", model_cfg(v, tier, wd, sc), workers=max(2, NCPU // 4), timeout=3000,
+                              extra=["-continue"], heap="6g")
 
+    gen = {v: [] for v in SUPPORTED}
     with ThreadPoolExecutor(max_workers=4) as ex:
-        for v, r in ex.map(mc, SUPPORTED):
+        for v, sc, r in ex.map(mc, [(v, sc) for sc in ("module",) + tuple(df.SMALL_SCOPES) for v in SUPPORTED]):
             r.errors = [e for e in r.errors if "behavior up to this point" not in e]
-            rep.add_tlc(r, f"MC_Decode+RoundTripModel[{v},{tier}]")
-            rep.cov.setdefault("model_invariant_violations", {})[v] = len(r.violated)
+            rep.add_tlc(r, f"MC_Decode+RoundTripModel[{v},{tier},{sc}]")
+            rep.cov.setdefault("model_invariant_violations", {})[v + ":" + sc] = len(r.violated)
             cs = []
+            tag = "" if sc == "module" else sc[0]
             for n, s in enumerate(tlc_prints(r.out)):
                 ver, units, instrs, starts, bad = json.loads(tla_unescape(s))
                 us = [[u[0], u[2]] for u in units]
                 if minimal_widths(us):
-                    cs.append({"id": f"g:{v}:{n}", "units": us, "alt": n % 2 == 1})
-            gen[v] = cs
+                    cs.append({"id": f"g:{v}:{tag}{n}", "units": us, "alt": n % 2 == 1, "scope": sc})
+            gen[v] += cs
             if not cs:
-                rep.machinery_error(f"MC_Decode[{v}] emitted nothing usable: {r.out[-400:]}")
+                rep.machinery_error(f"MC_Decode[{v},{sc}] emitted nothing usable: {r.out[-400:]}")
     # the same invariants for function scopes (docstring slot, the encoder's "prepend None" rule); design level only
     def mcf(job):
         v, sc = job
@@ -106,7 +112,9 @@ def run(tier: str, rep: Report):
         jobs = {v: [] for v in SUPPORTED}
         k = 0
         for v in SUPPORTED:
-            gs = gen[v] if len(gen[v]) <= limit else rnd.sample(gen[v], limit)
+            small = [c for c in gen[v] if c["scope"] != "module"]
+            big = [c for c in gen[v] if c["scope"] == "module"]
+            gs = small + (big if len(big) <= limit else rnd.sample(big, limit))
             for ch in chunks(gs, 2000):
                 k += 1
                 f = str(wd / f"gen-{v}-{k}.ndjson")
